@@ -10,6 +10,7 @@ import (
 	"reflect"
 
 	metav1 "k8s.io/apimachinery/pkg/apis/meta/v1"
+	"k8s.io/apimachinery/pkg/apis/meta/v1/unstructured"
 	"k8s.io/apimachinery/pkg/runtime"
 	"k8s.io/apimachinery/pkg/types"
 	"sigs.k8s.io/controller-runtime/pkg/client"
@@ -278,4 +279,47 @@ func HarnessC06DeletedBehindCache() {
 	r := zzClaimReconciler(c, zz.Bool("syncer.ssa"))
 	_, _ = r.Reconcile(context.Background(), reconcile.Request{NamespacedName: types.NamespacedName{Namespace: "team", Name: "cm"}})
 	zz.Assert("deleted-claims-xr-is-not-brought-back", s.Count("example.org", "XR") == 0)
+}
+
+// HarnessC06OtherKind: the claim's resourceRef names an object of another
+// kind (a hand-edited or migrated reference) that exists under that name and
+// is bound to a different claim. The claim's controller only ever deals in
+// its own XR kind: whatever it does about the reference, the other object is
+// left exactly as it was.
+//
+//gosym:harness
+//gosym:cover other-kind other-version
+func HarnessC06OtherKind() {
+	s := kube.New()
+	refAPI, refKind := "example.org/v1", "OtherXR"
+	if zz.Bool("ref.differsInVersionOnly") {
+		zz.Cover("other-version")
+		refAPI, refKind = "example.org/v2", "XR"
+	} else {
+		zz.Cover("other-kind")
+	}
+	cm := claim.New(claim.WithGroupVersionKind(zzClaimGVK))
+	cm.SetName("cm")
+	cm.SetNamespace("team")
+	cm.SetUID("uid-claim")
+	cm.SetFinalizers([]string{finalizer})
+	cm.Object["spec"] = map[string]any{"param": "v", "resourceRef": map[string]any{"apiVersion": refAPI, "kind": refKind, "name": "xr-pre"}}
+	s.Put(cm)
+	other := &unstructured.Unstructured{Object: map[string]any{}}
+	other.SetAPIVersion(refAPI)
+	other.SetKind(refKind)
+	other.SetName("xr-pre")
+	other.SetUID("uid-other-xr")
+	other.Object["spec"] = map[string]any{"param": "theirs", "claimRef": map[string]any{"apiVersion": "example.org/v1", "kind": "Claim", "name": "another", "namespace": "team"}}
+	other.SetLabels(map[string]string{"crossplane.io/claim-name": "another", "crossplane.io/claim-namespace": "team"})
+	s.Put(other)
+	group := "example.org"
+	before := runtime.DeepCopyJSON(s.Doc(group, refKind, "", "xr-pre"))
+	zz.Assert("other-object-stored", before != nil)
+
+	r := zzClaimReconciler(s, zz.Bool("syncer.ssa"))
+	for k := 0; k < 2; k++ {
+		_, _ = r.Reconcile(context.Background(), reconcile.Request{NamespacedName: types.NamespacedName{Namespace: "team", Name: "cm"}})
+	}
+	zz.Assert("object-of-another-kind-bound-to-another-claim-left-as-it-was", reflect.DeepEqual(before, s.Doc(group, refKind, "", "xr-pre")))
 }
